@@ -1,21 +1,12 @@
-(** C20 — triple store: the torn-index schedule, its class K, and consistency of the three
-    indexes with the primary set for every program outside K and every schedule. *)
+(** C20 — triple store (after the repair of C20-K1: insert and remove keep triples.write() while the
+    three indexes are updated, so each update of the four structures is one atomic step): the three
+    indexes agree with the primary set in EVERY reachable configuration, for every number of
+    threads, every program and every schedule.  The pre-repair step lists, their torn schedule and
+    the theorem for the complement of its class are in ProofsRdfPre.v. *)
 From Coq Require Import ZArith List Bool Lia Permutation Arith.
 From GV Require Import Conc.Ops Conc.ProofsSem.
 Import ListNotations.
 Open Scope Z_scope.
-
-Notation qthread := (@thread regs qop out).
-
-(** * the finding and its class *)
-Lemma rdf_torn_refuted_l :
-  exists progs sched, progs = [[QInsert 7]; [QRemove 7]] /\ sched = [0; 0; 1; 1; 1; 1; 0; 0; 0]%nat /\
-    k_rdf progs = true /\
-    let c := qrun sched (qinit rdf0 progs) in
-    finished c = true /\ zmem 7 (q_prim (sh c)) = false /\
-    zmem 7 (q_s (sh c)) = true /\ zmem 7 (q_p (sh c)) = true /\ zmem 7 (q_o (sh c)) = true /\
-    rdf_consistent_at (sh c) 7 = false.
-Proof. eexists; eexists. vm_compute. repeat split; reflexivity. Qed.
 
 (** * small facts about the list functions *)
 Lemma zmem_cons : forall t a l, zmem t (a :: l) = (t =? a) || zmem t l.
@@ -47,282 +38,53 @@ Proof.
   - destruct (t =? a); simpl; rewrite IHl; auto.
 Qed.
 
-(** * the per-triple invariant *)
-Inductive role := RIns (pc : nat) | RRem (pc : nat).
 
-Definition actor (t : Z) (th : qthread) : list role :=
-  match t_op th with
-  | Some (QInsert t', pc) => if (t' =? t) && (2 <=? pc)%nat then [RIns pc] else []
-  | Some (QRemove t', pc) => if (t' =? t) && (1 <=? pc)%nat then [RRem pc] else []
-  | None => []
-  end.
+(** * every step keeps the four structures in agreement *)
+Definition rdf_ok (q : rdf) : Prop := forall t, rdf_consistent_at q t = true.
 
-Definition c01 (b : bool) : nat := if b then 1%nat else 0%nat.
-
-Definition facts (t : Z) (q : rdf) (r : list role) : Prop :=
-  match r with
-  | [] => zcount t (q_s q) = c01 (zmem t (q_prim q)) /\ zcount t (q_p q) = c01 (zmem t (q_prim q)) /\
-          zcount t (q_o q) = c01 (zmem t (q_prim q))
-  | [RIns pc] => zmem t (q_prim q) = true /\ (pc <= 4)%nat /\
-          zcount t (q_s q) = c01 (2 <? pc)%nat /\ zcount t (q_p q) = c01 (3 <? pc)%nat /\ zcount t (q_o q) = c01 (4 <? pc)%nat
-  | [RRem pc] => zmem t (q_prim q) = false /\ (pc <= 3)%nat /\
-          zcount t (q_s q) = c01 (pc <=? 1)%nat /\ zcount t (q_p q) = c01 (pc <=? 2)%nat /\ zcount t (q_o q) = c01 (pc <=? 3)%nat
-  | _ => False
-  end.
-
-Definition same_on (t : Z) (q q' : rdf) : Prop :=
-  zmem t (q_prim q') = zmem t (q_prim q) /\ zcount t (q_s q') = zcount t (q_s q) /\
-  zcount t (q_p q') = zcount t (q_p q) /\ zcount t (q_o q') = zcount t (q_o q).
-
-Lemma facts_frame : forall t q q' r, same_on t q q' -> facts t q r -> facts t q' r.
+Lemma idx_ok_cons : forall t u prim idx, idx_ok prim idx t = true -> zmem u prim = false ->
+  idx_ok (u :: prim) (u :: idx) t = true.
 Proof.
-  intros t q q' r (E1 & E2 & E3 & E4) F. destruct r as [|[pc|pc] [|]]; simpl in *; rewrite ?E1, ?E2, ?E3, ?E4; auto.
+  unfold idx_ok. intros t u prim idx H N. rewrite zmem_cons.
+  destruct (Z.eq_dec t u) as [->|Ne].
+  - rewrite Z.eqb_refl. simpl. rewrite zcount_cons_same. rewrite N in H. apply Nat.eqb_eq in H. rewrite H. reflexivity.
+  - rewrite zcount_cons_other by auto. destruct (t =? u) eqn:E; [apply Z.eqb_eq in E; tauto|]. simpl. exact H.
+Qed.
+Lemma idx_ok_rem : forall t u prim idx, idx_ok prim idx t = true -> idx_ok (zrem u prim) (zrem u idx) t = true.
+Proof.
+  unfold idx_ok. intros t u prim idx H.
+  destruct (Z.eq_dec t u) as [->|Ne].
+  - rewrite zcount_zrem_same, zmem_zrem_same. reflexivity.
+  - rewrite zcount_zrem_other, zmem_zrem_other by auto. exact H.
 Qed.
 
-Definition cur_op (th : qthread) : option qop := match t_op th with Some (op, _) => Some op | None => None end.
-
-Lemma actor_load : forall t l todo o, actor t (load l todo o) = [].
-Proof. intros. destruct todo as [|[]]; unfold actor; simpl; rewrite ?andb_false_r; reflexivity. Qed.
-
-Ltac qcrunch :=
-  repeat match goal with
-  | H : (_, _) = (_, _) |- _ => inversion H; subst; clear H
-  end.
-
-(** what a step of one thread means for triple t *)
-Ltac qleaf NE :=
-  qcrunch; rewrite ?actor_load; unfold actor, cur_op; simpl;
-  rewrite ?Z.eqb_refl; simpl;
-  repeat (match goal with E : (?a =? ?b) = false |- context [?a =? ?b] => rewrite E end); simpl;
-  unfold facts, same_on; simpl;
-  rewrite ?Z.eqb_refl, ?zcount_cons_same, ?zcount_zrem_same, ?zmem_zrem_same; simpl;
-  try (rewrite ?(zcount_cons_other _ _ _ NE), ?(zcount_zrem_other _ _ _ NE), ?(zmem_zrem_other _ _ _ NE));
-  repeat match goal with |- context [zmem ?t (q_prim ?s)] => let M := fresh "M" in destruct (zmem t (q_prim s)) eqn:M; simpl end;
-  intuition (try congruence; try lia).
-
-Lemma qstep_local : forall t s th s' th', step_thread qcode qexec s th = (s', th') ->
-  match actor t th, actor t th' with
-  | [], [] => same_on t s s'
-  | [], r' => (facts t s [] -> facts t s' r') /\
-              ((zmem t (q_prim s) = false /\ cur_op th = Some (QInsert t)) \/
-               (zmem t (q_prim s) = true /\ cur_op th = Some (QRemove t)))
-  | r, r' => facts t s r -> facts t s' r'
-  end.
+Lemma qstep_ok : forall s th s' th', rdf_ok s -> step_thread qcode qexec s th = (s', th') -> rdf_ok s'.
 Proof.
-  intros t s [top tl ttodo tout] s' th' H. unfold step_thread in H. simpl in H.
-  destruct top as [[op pc]|]; [|qleaf I].
-  destruct op as [u|u]; unfold actor at 1; simpl t_op; cbv iota beta.
-  - (* insert u *)
-    destruct (Z.eq_dec u t) as [->|NE].
-    + rewrite Z.eqb_refl. simpl andb.
-      destruct pc as [|[|[|[|[|pc]]]]]; simpl in H |- *.
-      * destruct (zmem t (q_prim s)) eqn:M0; qleaf I.
-      * destruct (zmem t (q_prim s)) eqn:M0; qleaf I.
-      * qleaf I.
-      * qleaf I.
-      * qleaf I.
-      * destruct pc; simpl in H; qleaf I.
-    + assert (E : (u =? t) = false) by (apply Z.eqb_neq; auto). rewrite E. simpl andb. cbv iota.
-      assert (NE' : t <> u) by congruence.
-      assert (E' : (t =? u) = false) by (apply Z.eqb_neq; auto).
-      destruct pc as [|[|[|[|[|pc]]]]]; simpl in H.
-      * destruct (zmem u (q_prim s)) eqn:M0; qleaf NE'.
-      * destruct (zmem u (q_prim s)) eqn:M0; qleaf NE'.
-      * qleaf NE'.
-      * qleaf NE'.
-      * qleaf NE'.
-      * destruct pc; simpl in H; qleaf NE'.
-  - (* remove u *)
-    destruct (Z.eq_dec u t) as [->|NE].
-    + rewrite Z.eqb_refl. simpl andb.
-      destruct pc as [|[|[|[|pc]]]]; simpl in H |- *.
-      * destruct (zmem t (q_prim s)) eqn:M0; qleaf I.
-      * qleaf I.
-      * qleaf I.
-      * qleaf I.
-      * destruct pc; simpl in H; qleaf I.
-    + assert (E : (u =? t) = false) by (apply Z.eqb_neq; auto). rewrite E. simpl andb. cbv iota.
-      assert (NE' : t <> u) by congruence.
-      assert (E' : (t =? u) = false) by (apply Z.eqb_neq; auto).
-      destruct pc as [|[|[|[|pc]]]]; simpl in H.
-      * destruct (zmem u (q_prim s)) eqn:M0; qleaf NE'.
-      * qleaf NE'.
-      * qleaf NE'.
-      * qleaf NE'.
-      * destruct pc; simpl in H; qleaf NE'.
+  intros s [top tl ttodo tout] s' th' OK H. unfold step_thread in H. simpl in H.
+  destruct top as [[op pc]|]; [|inversion H; subst; auto].
+  destruct op as [u|u].
+  - destruct pc as [|[|pc]]; simpl in H.
+    + destruct (zmem u (q_prim s)); inversion H; subst; auto.
+    + destruct (zmem u (q_prim s)) eqn:M; inversion H; subst; auto.
+      intros t. specialize (OK t). unfold rdf_consistent_at in *. simpl.
+      apply andb_true_iff in OK. destruct OK as [OK O3]. apply andb_true_iff in OK. destruct OK as [O1 O2].
+      rewrite !idx_ok_cons; auto.
+    + destruct pc; simpl in H; inversion H; subst; auto.
+  - destruct pc as [|pc]; simpl in H.
+    + destruct (zmem u (q_prim s)) eqn:M; inversion H; subst; auto.
+      intros t. specialize (OK t). unfold rdf_consistent_at in *. simpl.
+      apply andb_true_iff in OK. destruct OK as [OK O3]. apply andb_true_iff in OK. destruct OK as [O1 O2].
+      rewrite !idx_ok_rem; auto.
+    + destruct pc; simpl in H; inversion H; subst; auto.
 Qed.
 
-(** * the pool-level invariant *)
-Definition mentions (op : qop) (th : qthread) : Prop := cur_op th = Some op \/ In op (t_todo th).
-Definition noconf (p : list qthread) : Prop :=
-  forall i j thi thj t, i <> j -> nth_error p i = Some thi -> nth_error p j = Some thj ->
-    mentions (QInsert t) thi -> mentions (QRemove t) thj -> False.
-
-Lemma mentions_load : forall op l todo o, mentions op (load l todo o) -> In op todo.
+Lemma rdf_index_consistent_l : forall q0 progs sched,
+  (forall t, rdf_consistent_at q0 t = true) ->
+  forall t, rdf_consistent_at (sh (qrun sched (qinit q0 progs))) t = true.
 Proof.
-  intros op l todo o [H|H]; destruct todo as [|x r]; simpl in *; try discriminate; auto.
-  unfold cur_op in H. simpl in H. inversion H. auto.
-Qed.
-
-Lemma mentions_step : forall op s th s' th', step_thread qcode qexec s th = (s', th') ->
-  mentions op th' -> mentions op th.
-Proof.
-  intros op s [top tl ttodo tout] s' th' H M. unfold step_thread in H. simpl in H.
-  destruct top as [[o pc]|]; [|qcrunch; auto].
-  destruct (nth_error (qcode o) pc) as [k|]; [|qcrunch; auto].
-  destruct (qexec k s tl) as [[s1 l1] [| |r]]; qcrunch.
-  - destruct M as [M|M]; [left|right]; auto.
-  - destruct M as [M|M]; [left|right]; auto.
-  - right. simpl. eapply mentions_load; eauto.
-Qed.
-
-Lemma noconf_step : forall c i, noconf (pool c) -> noconf (pool (step qcode qexec c i)).
-Proof.
-  intros c i N.
-  destruct (nth_error (pool c) i) as [th|] eqn:E; [|rewrite step_none; auto].
-  rewrite (step_unfold _ _ _ _ _ qcode qexec c i th E).
-  destruct (step_thread qcode qexec (sh c) th) as [s' th'] eqn:ST. simpl.
-  pose proof (nth_error_lt _ _ _ _ E) as Li.
-  intros a b tha thb t Hab Ha Hb Ma Mb.
-  destruct (Nat.eq_dec a i) as [->|Na]; destruct (Nat.eq_dec b i) as [->|Nb]; try congruence.
-  - rewrite nth_upd_same in Ha by auto. inversion Ha; subst. rewrite nth_upd_other in Hb by auto.
-    eapply (N i b th thb t); eauto. eapply mentions_step; eauto.
-  - rewrite nth_upd_same in Hb by auto. inversion Hb; subst. rewrite nth_upd_other in Ha by auto.
-    eapply (N a i tha th t); eauto. eapply mentions_step; eauto.
-  - rewrite nth_upd_other in Ha by auto. rewrite nth_upd_other in Hb by auto. eapply (N a b); eauto.
-Qed.
-
-Definition actors (t : Z) (p : list qthread) : list role := flat_map (actor t) p.
-
-Lemma facts_two : forall t q a b l, facts t q (a :: b :: l) -> False.
-Proof. intros t q [pc|pc] b l H; exact H. Qed.
-
-Lemma facts_single_mid : forall t q A1 x A2, facts t q (A1 ++ [x] ++ A2) -> A1 = [] /\ A2 = [].
-Proof.
-  intros t q A1 x A2 H. destruct A1 as [|a A1].
-  - destruct A2; [split; reflexivity|]. exfalso. eapply (facts_two t q x r A2). exact H.
-  - exfalso. destruct A1 as [|a0 A1].
-    + eapply (facts_two t q a x A2). exact H.
-    + eapply (facts_two t q a a0 (A1 ++ [x] ++ A2)). exact H.
-Qed.
-
-Lemma actor_ins : forall t th pc, In (RIns pc) (actor t th) -> cur_op th = Some (QInsert t).
-Proof.
-  unfold actor, cur_op. intros t th pc. destruct (t_op th) as [[[u|u] p]|]; intros H; try contradiction.
-  - destruct (u =? t) eqn:E; simpl in H; [|contradiction]. apply Z.eqb_eq in E. subst. auto.
-  - destruct ((u =? t) && (1 <=? p)%nat); simpl in H; [|contradiction]. destruct H as [H|[]]. discriminate H.
-Qed.
-Lemma actor_rem : forall t th pc, In (RRem pc) (actor t th) -> cur_op th = Some (QRemove t).
-Proof.
-  unfold actor, cur_op. intros t th pc. destruct (t_op th) as [[[u|u] p]|]; intros H; try contradiction.
-  - destruct ((u =? t) && (2 <=? p)%nat); simpl in H; [|contradiction]. destruct H as [H|[]]. discriminate H.
-  - destruct (u =? t) eqn:E; simpl in H; [|contradiction]. apply Z.eqb_eq in E. subst. auto.
-Qed.
-Lemma actor_short : forall t th, actor t th = [] \/ exists x, actor t th = [x].
-Proof.
-  unfold actor. intros. destruct (t_op th) as [[[u|u] p]|]; auto.
-  - destruct ((u =? t) && (2 <=? p)%nat); eauto.
-  - destruct ((u =? t) && (1 <=? p)%nat); eauto.
-Qed.
-
-(** an actor found among the other threads sits at an index different from i *)
-Lemma other_actor : forall t (l1 l2 : list qthread) th r,
-  In r (flat_map (actor t) l1 ++ flat_map (actor t) l2) ->
-  exists j thj, j <> length l1 /\ nth_error (l1 ++ th :: l2) j = Some thj /\ In r (actor t thj).
-Proof.
-  intros t l1 l2 th r H. apply in_app_or in H. destruct H as [H|H]; apply in_flat_map in H; destruct H as (thj & Hin & Hr).
-  - destruct (In_nth_error _ _ Hin) as (j & Ej). exists j, thj.
-    pose proof (nth_error_lt _ _ _ _ Ej). split; [lia|]. split; auto. rewrite nth_error_app1; auto.
-  - destruct (In_nth_error _ _ Hin) as (k & Ek). exists (length l1 + S k)%nat, thj.
-    split; [lia|]. split; auto. rewrite nth_error_app2 by lia.
-    replace (length l1 + S k - length l1)%nat with (S k) by lia. auto.
-Qed.
-
-Definition rdf_inv (t : Z) (c : qcfg) : Prop := noconf (pool c) /\ facts t (sh c) (actors t (pool c)).
-
-Lemma rdf_inv_step : forall t c i, rdf_inv t c -> rdf_inv t (step qcode qexec c i).
-Proof.
-  intros t c i [N F]. split; [apply noconf_step; auto|].
-  destruct (nth_error (pool c) i) as [th|] eqn:E; [|rewrite step_none; auto].
-  rewrite (step_unfold _ _ _ _ _ qcode qexec c i th E).
-  destruct (step_thread qcode qexec (sh c) th) as [s' th'] eqn:ST. simpl.
-  destruct (upd_nth_split _ i th' th (pool c) E) as (l1 & l2 & P1 & P2 & Len).
-  unfold actors in *. rewrite P2. rewrite P1 in F. rewrite flat_map_app in *. simpl in *.
-  pose proof (qstep_local t _ _ _ _ ST) as L.
-  destruct (actor_short t th) as [A|(x & A)]; rewrite A in *.
-  - destruct (actor_short t th') as [A'|(x' & A')]; rewrite A' in *.
-    + simpl in *. eapply facts_frame; eauto.
-    + destruct L as (L1 & L2). simpl in F.
-      destruct (flat_map (actor t) l1 ++ flat_map (actor t) l2) as [|r0 rs] eqn:OA.
-      * apply app_eq_nil in OA. destruct OA as [-> ->]. apply L1. exact F.
-      * exfalso.
-        assert (Hr0 : In r0 (flat_map (actor t) l1 ++ flat_map (actor t) l2)) by (rewrite OA; left; auto).
-        destruct (other_actor t l1 l2 th r0 Hr0) as (j & thj & Nj & Ej & Aj).
-        rewrite <- P1 in Ej.
-        assert (Rs : rs = []) by (destruct rs; auto; apply facts_two in F; tauto). subst rs.
-        destruct r0 as [pc0|pc0]; simpl in F.
-        -- apply actor_ins in Aj. destruct F as (Fm & _).
-           destruct L2 as [(Z0 & _)|(_ & C)]; [congruence|].
-           apply (N j i thj th t); auto; try lia; left; auto.
-        -- apply actor_rem in Aj. destruct F as (Fm & _).
-           destruct L2 as [(_ & C)|(Z0 & _)]; [|congruence].
-           apply (N i j th thj t); auto; try lia; left; auto.
-  - apply facts_single_mid in F as F'. destruct F' as [E1 E2]. rewrite E1, E2 in *. simpl in *.
-    rewrite app_nil_r. apply L. exact F.
-Qed.
-
-Lemma actors_init : forall t progs, actors t (pool (qinit rdf0 progs)) = [].
-Proof.
-  intros. unfold actors, qinit, init. simpl. induction progs; simpl; auto. rewrite actor_load. auto.
-Qed.
-
-Lemma ins_of_in : forall t p, In (QInsert t) p -> In t (ins_of p).
-Proof. intros. unfold ins_of. apply in_flat_map. exists (QInsert t). simpl. auto. Qed.
-Lemma rem_of_in : forall t p, In (QRemove t) p -> In t (rem_of p).
-Proof. intros. unfold rem_of. apply in_flat_map. exists (QRemove t). simpl. auto. Qed.
-Lemma zmem_in : forall t l, In t l -> zmem t l = true.
-Proof. intros. unfold zmem. apply existsb_exists. exists t. split; auto. apply Z.eqb_refl. Qed.
-
-Lemma noconf_init : forall q0 progs, k_rdf progs = false -> noconf (pool (qinit q0 progs)).
-Proof.
-  intros q0 progs K i j thi thj t Hij Hi Hj Mi Mj.
-  unfold qinit, init in *. simpl in *.
-  rewrite nth_error_map in Hi, Hj.
-  destruct (nth_error progs i) as [pi|] eqn:Ei; [|discriminate].
-  destruct (nth_error progs j) as [pj|] eqn:Ej; [|discriminate].
-  simpl in Hi, Hj. inversion Hi; inversion Hj; subst.
-  apply mentions_load in Mi. apply mentions_load in Mj.
-  assert (K' : k_rdf progs = true); [|congruence].
-  unfold k_rdf. apply existsb_exists. exists i. split; [apply in_seq; pose proof (nth_error_lt _ _ _ _ Ei); lia|].
-  apply existsb_exists. exists j. split; [apply in_seq; pose proof (nth_error_lt _ _ _ _ Ej); lia|].
-  apply andb_true_iff. split; [apply negb_true_iff; apply Nat.eqb_neq; auto|].
-  apply existsb_exists. exists t. split.
-  - rewrite (nth_error_nth _ _ _ Ei). apply ins_of_in. auto.
-  - rewrite (nth_error_nth _ _ _ Ej). apply zmem_in. apply rem_of_in. auto.
-Qed.
-
-Lemma consistent_facts : forall t q, rdf_consistent_at q t = true <-> facts t q [].
-Proof.
-  intros. unfold rdf_consistent_at, idx_ok, facts, c01. rewrite !andb_true_iff, !Nat.eqb_eq.
-  destruct (zmem t (q_prim q)); tauto.
-Qed.
-
-Lemma rdf_index_consistent_outside_K_l : forall q0 progs sched,
-  (forall t, rdf_consistent_at q0 t = true) -> k_rdf progs = false ->
-  let c := qrun sched (qinit q0 progs) in
-  finished c = true -> forall t, rdf_consistent_at (sh c) t = true.
-Proof.
-  intros q0 progs sched H0 K c Fin t.
-  assert (I : rdf_inv t c).
-  { apply (run_inv _ _ _ _ _ qcode qexec (rdf_inv t)); [intros; apply rdf_inv_step; auto|].
-    split; [apply noconf_init; auto|].
-    replace (actors t (pool (qinit q0 progs))) with (@nil role).
-    - simpl. apply consistent_facts. auto.
-    - symmetry. unfold actors, qinit, init. simpl. clear. induction progs; simpl; auto. rewrite actor_load. auto. }
-  destruct I as [_ F]. apply consistent_facts.
-  replace (actors t (pool c)) with (@nil role) in F; auto.
-  symmetry. unfold finished in Fin. unfold actors. clear - Fin.
-  induction (pool c) as [|th l]; simpl in *; auto.
-  apply andb_true_iff in Fin. destruct Fin as [I1 I2]. rewrite IHl; auto.
-  unfold idle in I1. unfold actor. destruct (t_op th); [discriminate|reflexivity].
+  intros q0 progs sched H0.
+  change (rdf_ok (sh (qrun sched (qinit q0 progs)))).
+  apply (run_inv _ _ _ _ _ qcode qexec (fun c => rdf_ok (sh c))); [|exact H0].
+  intros c i I. unfold step. destruct (nth_error (pool c) i) as [th|]; auto.
+  destruct (step_thread qcode qexec (sh c) th) as [s' th'] eqn:ST. simpl. eapply qstep_ok; eauto.
 Qed.
